@@ -1,13 +1,13 @@
 import Pi2.MM.ConvCohRoles
 /-!
-# Coherence of the specification `dbOfMDb` with the statements, as a THEOREM about every database of the shape `FragmentShape`
+# Coherence of the specification `dbOfCore` with the statements, as a THEOREM about every database of the shape `CoreShape`
 
 `ConvTie.InFragment` / `ConvTie.InFragmentX` (the hypotheses of `C16.converter_text_is_the_model` /
 `C16.translation_text_is_the_model`) consist of (i) the run conditions `InFragmentM`, (ii) the coherence of the OUTPUT of
-`dbOfMDb` with every statement, (iii) `db.wf`.  Here all three are derived from `MM.ConvSpec.FragmentShape`
+`dbOfCore` with every statement, (iii) `db.wf`.  Here all three are derived from `MM.ConvSpec.CoreShape`
 (`Pi2/MM/ConvShape.lean`), a predicate on the statements alone:
 
-* `coherence`: `dbOfMDb` accepts every database of the shape, and its output is coherent with every statement (`Coherent`: the
+* `coherence`: `dbOfCore` accepts every database of the shape, and its output is coherent with every statement (`Coherent`: the
   conjuncts (ii) of `InFragment` and `InFragmentX`) and well formed (iii);
 * `inFragmentM_of_shape`: the run conditions (i);
 * `inFragmentConv_of_shape` (→ `InFragment`), `inFragmentX_of_shape` = `inFragment_of_shape` (→ `InFragmentX`).
@@ -44,8 +44,8 @@ structure Shaped (mdb : MDb) (target : String) : Prop where
   prov : ∃ ts pf, mdb.filter isProv = [.prov target ts pf] ∧
     proofShape ((floatsOf mdb).map (·.1) ++ axLabelsOf mdb) pf = true
 
-theorem shaped_of {mdb : MDb} {target : String} (h : FragmentShape mdb target = true) : Shaped mdb target := by
-  simp only [FragmentShape, Bool.and_eq_true, List.all_eq_true, List.any_eq_true, decide_eq_true_eq, beq_iff_eq] at h
+theorem shaped_of {mdb : MDb} {target : String} (h : CoreShape mdb target = true) : Shaped mdb target := by
+  simp only [CoreShape, Bool.and_eq_true, List.all_eq_true, List.any_eq_true, decide_eq_true_eq, beq_iff_eq] at h
   obtain ⟨⟨⟨⟨⟨⟨⟨h1, h2⟩, h3⟩, h4⟩, h5⟩, h6⟩, h7⟩, h8⟩ := h
   refine ⟨h1, h2, h3, h4, h5, h6, h7, ?_⟩
   split at h8
@@ -676,7 +676,7 @@ theorem mapM_map_some {α β γ : Type} (f : β → Option γ) (g : α → β) (
     rw [List.map_cons, List.mapM_cons, hx x (by simp), ih (fun y hy => hx y (by simp [hy]))]
     rfl
 
-/-! ## the target and `dbOfMDb` -/
+/-! ## the target and `dbOfCore` -/
 def lemmaOf? (target : String) : Role → Option (MM.Term × List String)
   | .lemma l g pf => if l = target then some (g, pf) else none
   | _ => none
@@ -687,7 +687,7 @@ def floatLbl? (v : Nat) : Role → Option String
 
 theorem floatLabel_eq (rs : List Role) (v : Nat) : floatLabel rs v = rs.findSome? (floatLbl? v) := rfl
 
-theorem dbOfMDb_eq (mdb : MDb) (target : String) : dbOfMDb mdb target =
+theorem dbOfMDb_eq (mdb : MDb) (target : String) : dbOfCore mdb target =
     ((mdb.mapM (declOf (namesOf mdb))).bind fun decls => decls.mapM roleOf).bind fun roles =>
     (dbOfRoles roles).bind fun db => (roles.findSome? (lemmaOf? target)).bind fun gp => (proofOf gp.2).bind fun cs =>
     ((db.mandOf [gp.1]).mapM (floatLabel roles)).bind fun mand =>
@@ -1017,17 +1017,17 @@ end
 
 /-! ## COHERENCE -/
 /-- the coherence conjuncts of `ConvTie.InFragment` and `ConvTie.InFragmentX`: everything these hypotheses say about the OUTPUT of
-`dbOfMDb` (besides `db.wf`) -/
+`dbOfCore` (besides `db.wf`) -/
 def Coherent (mdb : MDb) (target : String) (sp : Spec) : Prop :=
   (∀ st ∈ mdb.filter isAxItem, coherentItem sp st = true) ∧ coherentFloats sp mdb = true ∧ coherentGoal sp mdb = true ∧
   coherentProof sp mdb = true ∧ tableOK sp mdb = true ∧ target ∉ (floatPairs mdb).map (·.1)
 
-/-- **`dbOfMDb` is coherent with the statements of every database of the shape**: it accepts the database; the label table gives
+/-- **`dbOfCore` is coherent with the statements of every database of the shape**: it accepts the database; the label table gives
 the label of every `$a` statement an `Lbl` of the right kind whose assertion in the model database is the statement's own content
 (`coherentItem`); `$f` statements, numbering, goal and decoded proof agree; the table is one-to-one and names `$f` / `$a`
 statements only; the target's label is no `$f` label; the model database is well formed. -/
-theorem coherence (mdb : MDb) (target : String) (h : FragmentShape mdb target = true) :
-    ∃ sp, dbOfMDb mdb target = some sp ∧ Coherent mdb target sp ∧ sp.db.wf = true := by
+theorem coherence (mdb : MDb) (target : String) (h : CoreShape mdb target = true) :
+    ∃ sp, dbOfCore mdb target = some sp ∧ Coherent mdb target sp ∧ sp.db.wf = true := by
   have S := shaped_of h
   obtain ⟨roles, hmap, hrel⟩ := roles_exist S
   have R : Roles mdb roles := ⟨hmap, hrel⟩
@@ -1159,7 +1159,7 @@ theorem termOKb_of_shape {mdb : MDb} {target : String} (S : Shaped mdb target) (
 
 /-- **the run conditions are facts about the statements**: on a database of the shape the converter's run is determined
 (`ConvTie.converter_state`) -/
-theorem inFragmentM_of_shape (mdb : MDb) (target : String) (h : FragmentShape mdb target = true) :
+theorem inFragmentM_of_shape (mdb : MDb) (target : String) (h : CoreShape mdb target = true) :
     InFragmentM mdb (dbFuel mdb) target = true := by
   have S := shaped_of h
   obtain ⟨roles, hmap, hrel⟩ := roles_exist S
@@ -1205,24 +1205,24 @@ theorem inFragmentM_of_shape (mdb : MDb) (target : String) (h : FragmentShape md
     simp only [hlem, beq_self_eq_true, Bool.true_and, Bool.and_eq_true, termOKb_of_shape S t ht hfuel, himp, Res.isOk, and_self]
 
 /-- every database of the shape is in the fragment of `ConvTie.converter_agrees` -/
-theorem inFragmentConv_of_shape (mdb : MDb) (target : String) (h : FragmentShape mdb target = true) : InFragment mdb target = true := by
+theorem inFragmentConv_of_shape (mdb : MDb) (target : String) (h : CoreShape mdb target = true) : InFragment mdb target = true := by
   obtain ⟨sp, hsp, ⟨h1, h2, h3, h4, _, _⟩, hwf⟩ := coherence mdb target h
   simp only [InFragment, inFragmentM_of_shape mdb target h, hsp, Bool.true_and, Bool.and_eq_true, List.all_eq_true]
   exact ⟨⟨⟨⟨h1, h2⟩, h3⟩, h4⟩, hwf⟩
 
 /-- every database of the shape is in the fragment of `ConvTie.translation_tie` -/
-theorem inFragmentX_of_shape (mdb : MDb) (target : String) (h : FragmentShape mdb target = true) : InFragmentX mdb target = true := by
+theorem inFragmentX_of_shape (mdb : MDb) (target : String) (h : CoreShape mdb target = true) : InFragmentX mdb target = true := by
   obtain ⟨sp, hsp, ⟨_, _, _, _, h5, h6⟩, _⟩ := coherence mdb target h
   simp only [InFragmentX, inFragmentConv_of_shape mdb target h, hsp, h5, Bool.true_and, Bool.and_true, Bool.not_eq_true',
     List.contains_eq_mem, decide_eq_false_iff_not]
   exact h6
 
-/-- the full statement: `FragmentShape mdb target = true → ConvTie.InFragmentX mdb target = true` (the hypothesis of
+/-- the full statement: `CoreShape mdb target = true → ConvTie.InFragmentX mdb target = true` (the hypothesis of
 `C16.translation_text_is_the_model`, which contains the one of `C16.converter_text_is_the_model`) -/
-theorem inFragment_of_shape (mdb : MDb) (target : String) (h : FragmentShape mdb target = true) : InFragmentX mdb target = true :=
+theorem inFragment_of_shape (mdb : MDb) (target : String) (h : CoreShape mdb target = true) : InFragmentX mdb target = true :=
   inFragmentX_of_shape mdb target h
 
-/-- `FragmentShape` is not stronger than the fragment by an accident of the definition: a database of the shape on which the
+/-- `CoreShape` is not stronger than the fragment by an accident of the definition: a database of the shape on which the
 specification and the run-time fragment agree -/
 theorem example_in_fragment : InFragmentX ConvSpec.Example.db "goal" = true :=
   inFragmentX_of_shape _ _ ConvSpec.Example.db_in_fragment
